@@ -91,10 +91,20 @@ end
 def rulesOK (ge : GEnv) (rules : Array PExpr) (g : Gate) (ok : Array Bool) : Bool :=
   (List.range rules.size).all fun i => !(ok[i]!) || chk ge g ok (rules[i]!)
 
-abbrev Memo := Std.HashMap (Nat × Nat) (Bool × Nat)
+abbrev Memo := Std.HashMap (Nat × Nat) (Bool × Nat × Flags)
 
 def MemoOK (g : Gate) (m : Memo) : Prop :=
-  ∀ (pos id : Nat) (b : Bool) (e : Nat), g.guardIds.contains id = true → m[(pos, id)]? = some (b, e) → b = false
+  ∀ (pos id : Nat) (b : Bool) (e : Nat) (fl : Flags), g.guardIds.contains id = true → m[(pos, id)]? = some (b, e, fl) → b = false
+
+theorem memoGet_some {m : Memo} {key : Nat × Nat} {cfg : Flags} {b : Bool} {e : Nat}
+    (h : memoGet m key cfg = some (b, e)) : ∃ fl, m[key]? = some (b, e, fl) := by
+  unfold memoGet at h
+  split at h
+  · rename_i b' e' fl heq
+    split at h
+    · injection h with h; injection h with h1 h2; subst h1; subst h2; exact ⟨fl, heq⟩
+    · cases h
+  · cases h
 
 structure Core (g : Gate) (s : PState) : Prop where
   cfg : s.cfg.get g.flag = g.blocked
@@ -413,9 +423,9 @@ theorem guard_fails (env : Env) (g : Gate) (a : Nat) (s : PState) (hg : isGuardA
     cases hb : g.blocked <;> simp_all
   · cases hg
 
-theorem memoOK_insert (g : Gate) (m : Memo) (pos id : Nat) (b : Bool) (e : Nat) (hm : MemoOK g m)
-    (hb : g.guardIds.contains id = true → b = false) : MemoOK g (m.insert (pos, id) (b, e)) := by
-  intro pos' id' b' e' hid hget
+theorem memoOK_insert (g : Gate) (m : Memo) (pos id : Nat) (b : Bool) (e : Nat) (fl : Flags) (hm : MemoOK g m)
+    (hb : g.guardIds.contains id = true → b = false) : MemoOK g (m.insert (pos, id) (b, e, fl)) := by
+  intro pos' id' b' e' fl' hid hget
   rw [Std.HashMap.getElem?_insert] at hget
   split at hget
   · rename_i heq
@@ -424,7 +434,7 @@ theorem memoOK_insert (g : Gate) (m : Memo) (pos id : Nat) (b : Bool) (e : Nat) 
     simp only [Prod.mk.injEq] at hget
     rw [← hget.1]
     exact hb (by rw [heq.2]; exact hid)
-  · exact hm pos' id' b' e' hid hget
+  · exact hm pos' id' b' e' fl' hid hget
 
 /-! ### the gating theorem -/
 
@@ -491,19 +501,20 @@ theorem gate_sound (env : Env) (g : Gate) (ok : Array Bool)
           refine ⟨good_of_same g s _ rfl rfl rfl rfl rfl rfl h, ?_⟩
           intro hsw hid
           have hcore := h hsw
-          split at hhit
-          · exact hcore.m2 _ _ _ _ hid hhit
-          · exact hcore.m1 _ _ _ _ hid hhit
+          obtain ⟨fl, hget⟩ := memoGet_some hhit
+          split at hget
+          · exact hcore.m2 _ _ _ _ _ hid hget
+          · exact hcore.m1 _ _ _ _ _ hid hget
         · obtain ⟨hg', hr'⟩ := ihN e _ hc h1
           split
           · refine ⟨?_, hr'⟩
             intro hsw
             have hc' := hg' hsw
-            exact ⟨hc'.cfg, hc'.stack, hc'.trace, hc'.m1, memoOK_insert g _ _ _ _ _ hc'.m2 (fun hid => hr' hsw hid)⟩
+            exact ⟨hc'.cfg, hc'.stack, hc'.trace, hc'.m1, memoOK_insert g _ _ _ _ _ _ hc'.m2 (fun hid => hr' hsw hid)⟩
           · refine ⟨?_, hr'⟩
             intro hsw
             have hc' := hg' hsw
-            exact ⟨hc'.cfg, hc'.stack, hc'.trace, memoOK_insert g _ _ _ _ _ hc'.m1 (fun hid => hr' hsw hid), hc'.m2⟩
+            exact ⟨hc'.cfg, hc'.stack, hc'.trace, memoOK_insert g _ _ _ _ _ _ hc'.m1 (fun hid => hr' hsw hid), hc'.m2⟩
     · -- parseNode
       intro e s hc h
       have hidEq := chk_id env.genv g ok e hc
